@@ -145,6 +145,101 @@ Theorem c04_function_signatures :
 Proof. exact structure_func_sigs. Qed.
 
 
+(* "up to CONSISTENT renumbering": per index space the renumbering of the round trip is a permutation of the input indices (total,
+   injective, onto: nothing dropped, nothing invented, no two entities collapsed), the identity for tables / memories / globals / segments on
+   streams in the validator's section order, the emitter's size order for functions; types are merged exactly when their signatures are
+   equal; after GC it is an injective partial map defined exactly on the kept entities *)
+From WV Require Import Model.GC Proofs.ParseTotal Proofs.Renumbering.
+Theorem c04_renumbering_is_a_permutation :
+  forall (cf : config) (ver : list N) (w : wmod) (s : pst) (ilen : wins -> N) 
+           (dw : list wsec) (e : emitted),
+         parseM cf ver w = POk s ->
+         emitM (ps_m s) ilen dw = Ok e ->
+         forall S : space, S <> S_type -> S <> S_local -> perm_on (n_in s S) (rho s e S).
+Proof. exact rho_perm. Qed.
+
+Theorem c04_renumbering_injective :
+  forall (cf : config) (ver : list N) (w : wmod) (s : pst) (ilen : wins -> N) 
+           (dw : list wsec) (e : emitted),
+         parseM cf ver w = POk s ->
+         emitM (ps_m s) ilen dw = Ok e ->
+         forall (S : space) (i i' j : N),
+         S <> S_type -> S <> S_local -> rho s e S i = Ok j -> rho s e S i' = Ok j -> i = i'.
+Proof. exact rho_inj. Qed.
+
+Theorem c04_nothing_dropped_or_invented :
+  forall (cf : config) (ver : list N) (w : wmod) (s : pst) (ilen : wins -> N) 
+           (dw : list wsec) (e : emitted),
+         parseM cf ver w = POk s ->
+         emitM (ps_m s) ilen dw = Ok e ->
+         forall (S : space) (id : N),
+         S <> S_type -> S <> S_local -> In id (emitted_ids e S) <-> (N.to_nat id < n_in s S)%nat.
+Proof. exact emitted_full. Qed.
+
+Theorem c04_identity_for_tables_memories_globals :
+  forall (cf : config) (ver : str) (w : wmod) (s : pst) (ilen : wins -> N) (dw : list wsec)
+           (e : emitted) (S : space),
+         parseM cf ver w = POk s ->
+         emitM (ps_m s) ilen dw = Ok e ->
+         tmg S -> valid_stream w -> forall i : N, (N.to_nat i < n_in s S)%nat -> rho s e S i = Ok i.
+Proof. exact rho_tmg_identity_valid. Qed.
+
+Theorem c04_identity_for_segments :
+  forall (cf : config) (ver : list N) (w : wmod) (s : pst) (ilen : wins -> N) 
+           (dw : list wsec) (e : emitted),
+         parseM cf ver w = POk s ->
+         emitM (ps_m s) ilen dw = Ok e ->
+         forall i : N, (N.to_nat i < n_in s S_elem)%nat -> rho s e S_elem i = Ok i.
+Proof. exact rho_elem_id. Qed.
+
+Theorem c04_functions_in_emitter_order :
+  forall (cf : config) (ver : str) (w : wmod) (s : pst) (ilen : wins -> N) (dw : list wsec)
+           (e : emitted),
+         parseM cf ver w = POk s ->
+         emitM (ps_m s) ilen dw = Ok e ->
+         exists fs : list (N * mlocalfunc),
+           used_local_functions (ps_m s) = Ok fs /\
+           (forall i j : N,
+            rho s e S_func i = Ok j <->
+            (N.to_nat i < n_in s S_func)%nat /\
+            nth_error (imported_funcs (ps_m s) ++ map fst fs) (N.to_nat j) = Some i).
+Proof. exact rho_func_order. Qed.
+
+Theorem c04_types_merged_exactly_when_equal :
+  forall (cf : config) (ver : list N) (w : wmod) (s : pst) (ilen : wins -> N) 
+           (dw : list wsec) (e : emitted),
+         parseM cf ver w = POk s ->
+         emitM (ps_m s) ilen dw = Ok e ->
+         forall (i i' : N) (t t' : list valty * list valty),
+         nth_error (flat_map Structure2.types_of w) (N.to_nat i) = Some t ->
+         nth_error (flat_map Structure2.types_of w) (N.to_nat i') = Some t' ->
+         rho s e S_type i = rho s e S_type i' <-> t = t'.
+Proof. exact rho_type_eq_iff. Qed.
+
+Theorem c04_renumbering_after_gc_injective :
+  forall (cf : config) (ver : list N) (w : wmod) (s : pst) (ilen : wins -> N) 
+           (dw : list wsec) (m' : wir) (e' : emitted),
+         parseM cf ver w = POk s ->
+         gc (ps_m s) = Ok m' ->
+         emitM m' ilen dw = Ok e' ->
+         forall (S : space) (i i' j : N),
+         S <> S_type -> S <> S_local -> rho s e' S i = Ok j -> rho s e' S i' = Ok j -> i = i'.
+Proof. exact rho_gc_inj. Qed.
+
+Theorem c04_renumbering_after_gc_defined_on_kept :
+  forall (cf : config) (ver : list N) (w : wmod) (s : pst) (ilen : wins -> N) 
+           (dw : list wsec) (m' : wir) (e' : emitted),
+         parseM cf ver w = POk s ->
+         gc (ps_m s) = Ok m' ->
+         emitM m' ilen dw = Ok e' ->
+         exists u : list ent,
+           used (ps_m s) = Ok u /\
+           (forall (S : space) (i : N),
+            S <> S_type ->
+            S <> S_local -> (exists j : N, rho s e' S i = Ok j) <-> (N.to_nat i < n_in s S)%nat /\ In (S, i) u).
+Proof. exact rho_gc_defined. Qed.
+
+
 Print Assumptions c04_attr_table_local.
 Print Assumptions c04_attr_table_import.
 Print Assumptions c04_attr_memory_local.
@@ -166,3 +261,12 @@ Print Assumptions c04_data_segments.
 Print Assumptions c04_data_count.
 Print Assumptions c04_no_start_invented.
 Print Assumptions c04_function_signatures.
+Print Assumptions c04_renumbering_is_a_permutation.
+Print Assumptions c04_renumbering_injective.
+Print Assumptions c04_nothing_dropped_or_invented.
+Print Assumptions c04_identity_for_tables_memories_globals.
+Print Assumptions c04_identity_for_segments.
+Print Assumptions c04_functions_in_emitter_order.
+Print Assumptions c04_types_merged_exactly_when_equal.
+Print Assumptions c04_renumbering_after_gc_injective.
+Print Assumptions c04_renumbering_after_gc_defined_on_kept.
